@@ -142,7 +142,7 @@ fn ser_one(s: &mut crate::serde_verb_payload::Serializer, kind: u8, v: u64, sbyt
         8 => add(s, &(v as i64)),
         9 => add(s, &f32::from_bits(v as u32)),
         10 => add(s, &f64::from_bits(v)),
-        11 => add(s, &unsafe { std::str::from_utf8_unchecked(&sbytes[..slen]) }), // bytes are assumed ASCII; skips the UTF-8 validator (> 20 min in CBMC)
+        11 => add(s, &unsafe { std::str::from_utf8_unchecked(&sbytes[..slen]) }), // bytes are assumed valid UTF-8 (valid_utf8_3); skips std's UTF-8 validator (> 20 min in CBMC)
         12 => add(s, &crate::serde_verb_payload::DltVerbArgTypeWrapper::DltScodAscii(serde_bytes::Bytes::new(&sbytes[..slen]))),
         _ => add(s, &serde_bytes::Bytes::new(&sbytes[..slen])),
     };
@@ -152,19 +152,54 @@ fn ser_one(s: &mut crate::serde_verb_payload::Serializer, kind: u8, v: u64, sbyt
     (ti, match fixed { Some(l) => l, None => slen + if kind == 11 { 1 } else { 0 } })
 }
 
+/// well-formed UTF-8 (Unicode Table 3-7) for strings of at most 3 bytes
+fn valid_utf8_3(b: &[u8; 3], l: usize) -> bool {
+    fn a(x: u8) -> bool {
+        x < 0x80
+    }
+    fn c(x: u8) -> bool {
+        x >= 0x80 && x <= 0xbf
+    }
+    fn two(x: u8, y: u8) -> bool {
+        x >= 0xc2 && x <= 0xdf && c(y)
+    }
+    fn three(x: u8, y: u8, z: u8) -> bool {
+        c(z) && ((x == 0xe0 && y >= 0xa0 && y <= 0xbf) || (((x >= 0xe1 && x <= 0xec) || x == 0xee || x == 0xef) && c(y)) || (x == 0xed && y >= 0x80 && y <= 0x9f))
+    }
+    match l {
+        0 => true,
+        1 => a(b[0]),
+        2 => (a(b[0]) && a(b[1])) || two(b[0], b[1]),
+        3 => (a(b[0]) && a(b[1]) && a(b[2])) || (two(b[0], b[1]) && a(b[2])) || (a(b[0]) && two(b[1], b[2])) || three(b[0], b[1], b[2]),
+        _ => false,
+    }
+}
+
 /// kinds concrete (one solver query per kind / kind pair: a symbolic kind makes CBMC explore 14 serializer paths per
 /// argument at once and did not finish in 40 min), values and string bytes symbolic
 fn v1_serializer<const K: usize>(kinds: [u8; K]) {
+    v1_serializer_len::<K>(kinds, None)
+}
+/// `fixed_len`: string/raw length concrete (the `_l2`/`_l3` harnesses: with a symbolic length CBMC also explores std's chunked
+/// paths for long strings in any length-dependent std call, e.g. chars().count())
+fn v1_serializer_len<const K: usize>(kinds: [u8; K], fixed_len: Option<usize>) {
     let vals: [u64; K] = kani::any();
     let sb: [[u8; 3]; K] = kani::any();
-    let sl: [usize; K] = kani::any();
+    let sl: [usize; K] = match fixed_len {
+        Some(l) => [l; K],
+        None => kani::any(),
+    };
     let mut s = crate::serde_verb_payload::Serializer { output: Vec::with_capacity(64) };
     let mut tis = [0u32; K];
     let mut lens = [0usize; K];
     let mut i = 0;
     while i < K {
         kani::assume(sl[i] <= 3);
-        kani::assume(sb[i][0] < 0x80 && sb[i][1] < 0x80 && sb[i][2] < 0x80); // ASCII (valid UTF-8) string bytes
+        if kinds[i] == 11 {
+            // the &str argument: every VALID UTF-8 string of at most 3 bytes (1-, 2- and 3-byte code points; added after seeded change
+            // C18-8 - before, only ASCII). Validity is assumed constructively, so from_utf8_unchecked below is sound.
+            kani::assume(valid_utf8_3(&sb[i], sl[i]));
+        }
         let (ti, l) = ser_one(&mut s, kinds[i], vals[i], &sb[i], sl[i]);
         tis[i] = ti;
         lens[i] = l;
@@ -200,7 +235,8 @@ fn v1_serializer<const K: usize>(kinds: [u8; K]) {
         n += 1;
     }
     assert!(it.next().is_none());
-    kani::cover!(sl[0] == 0, "empty string / value path reached");
+    kani::cover!(sl[0] == 0 || fixed_len.is_some(), "empty string / value path reached");
+    kani::cover!(kinds[0] != 11 || (sl[0] >= 2 && sb[0][0] >= 0x80), "first argument not a &str, or a &str with a multi-byte code point");
     std::mem::forget(m);
 }
 
@@ -213,6 +249,18 @@ macro_rules! ser_h {
         }
     };
 }
+macro_rules! ser_len_h {
+    ($name:ident, $k:expr, $kinds:expr, $len:expr) => {
+        #[kani::proof]
+        #[kani::unwind(24)]
+        fn $name() {
+            v1_serializer_len::<$k>($kinds, Some($len));
+        }
+    };
+}
+ser_len_h!(c18_v1_ser_str_l2, 1, [11], 2);
+ser_len_h!(c18_v1_ser_str_l3, 1, [11], 3);
+ser_len_h!(c18_v1_ser_str_l3_u8, 2, [11, 1], 3);
 // @generated serializer kind shapes
 ser_h!(c18_v1_ser_bool, 1, [0]);
 ser_h!(c18_v1_ser_u8, 1, [1]);
